@@ -11,6 +11,7 @@
      6. the round trip in the cases without a walk                   (roundtrip_copy, roundtrip_other_authority,
                                                                       roundtrip_domain_root)
         sources with dot segments                                    (roundtrip_walk_dotted)
+        equal paths; the round trip outside the failing shapes      (roundtrip_same_path, roundtrip_carved)
      7. witnesses against the unrestricted round trip                (roundtrip_refuted ...) *)
 From Coq Require Import List NArith ZArith Bool Lia String.
 From UP Require Import Base.Chars Model.Uri Model.Common Model.Compare Model.Resolve Model.Shorten
@@ -1070,6 +1071,175 @@ Proof.
   - rewrite !canon10_nf. exact B6.
 Qed.
 
+(* ---------------------------------------------------------------- equal paths: the empty reference *)
+Lemma add_base_empty_ref rel base : scheme base <> None -> scheme rel = None ->
+  is_host_set rel = false -> absolutePath rel = false -> pathSegs rel = [] ->
+  add_base false rel base
+  = (URI_SUCCESS,
+     set_fragment (fragment rel) (fix_empty_trail_segment (set_scheme (scheme base)
+       (set_query (match query rel with Some q => Some q | None => query base end)
+          (copy_path (copy_authority empty_uri base) base))))).
+Proof.
+  intros Hb Hs Hh Ha Hp. unfold add_base, add_base_impl.
+  destruct (scheme base) as [sb|]; [|congruence]. cbv zeta.
+  rewrite Hs. cbn [is_some andb]. rewrite Hh, Ha, Hp. reflexivity.
+Qed.
+
+Lemma trail_fixtrail h a p : trail_p h (rds_p h a (fixtrail_p h p)) = trail_p h (rds_p h a p).
+Proof.
+  destruct h; [reflexivity|]. cbn [fixtrail_p negb].
+  destruct p as [|[|c x] [|y l]]; try reflexivity.
+Qed.
+
+Theorem roundtrip_same_path src base : scheme src <> None -> scheme base <> None ->
+  range_eqb (scheme src) (scheme base) = true -> equals_authority src base = true ->
+  is_host_set src = is_host_set base -> absolutePath src = absolutePath base ->
+  skip_common (pathSegs src) (pathSegs base) = ([], []) ->
+  is_some (query base) && negb (is_some (query src)) = false ->
+  forallb nonul (pathSegs src) = true -> wf src = true ->
+  let r := snd (remove_base false src base) in
+  let back := snd (add_base false r base) in
+  fst (add_base false r base) = URI_SUCCESS
+  /\ scheme back = scheme src
+  /\ auth_fields back = auth_fields (copy_authority empty_uri base)
+  /\ pathSegs (canon10 back) = pathSegs (canon10 src) /\ absolutePath back = absolutePath src
+  /\ query back = query src /\ fragment back = fragment src.
+Proof.
+  intros Hs Hb He Ea Hhost Habs Hk Hq Hnul Hw. cbv zeta.
+  rewrite (rb_walk src base [] [] Hs Hb He Ea Hk). cbn [parents rest_segments app].
+  set (r := set_fragment (fragment src) (set_query (query src) (set_pathSegs [] empty_uri))).
+  rewrite (add_base_empty_ref r base Hb eq_refl eq_refl eq_refl eq_refl). cbn [fst snd].
+  destruct (skip_common_split _ _ _ _ Hk) as (c & cb & Eps & Epb & Ecc).
+  rewrite app_nil_r in Eps, Epb. subst c cb.
+  pose proof (seg_req_eq _ _ Hnul Ecc) as Epath.
+  split; [reflexivity|].
+  split; [rewrite fixtrail_nf; usimpl; symmetry; exact (scheme_eq_of_range src base Hw He)|].
+  split; [rewrite fixtrail_nf; reflexivity|].
+  split.
+  { rewrite !canon10_nf. rewrite fixtrail_nf. autorewrite with uri_db. usimpl.
+    rewrite <- Hhost, <- Habs, <- Epath. apply trail_fixtrail. }
+  split; [rewrite fixtrail_nf; usimpl; symmetry; exact Habs|].
+  split; [|rewrite fixtrail_nf; reflexivity].
+  rewrite fixtrail_nf. usimpl.
+  destruct (query src) as [q|]; [reflexivity|]. destruct (query base); [discriminate Hq|reflexivity].
+Qed.
+
+(* ---------------------------------------------------------------- the round trip outside the failing shapes *)
+(* objects as the parser makes them, with a registered name as host if any: well formed, no IP data
+   (a literal may be spelled in several ways, and the result carries the base's spelling), no NUL in the
+   authority texts and the segments, user info and port only together with a host *)
+Definition c10_good (u : uri) : bool :=
+  wf u && no_ip u && auth_nonul u && forallb nonul (pathSegs u)
+  && (is_host_set u || (negb (is_some (userInfo u)) && negb (is_some (portText u)))).
+
+(* the shapes on which reference creation is known not to round-trip *)
+Definition c10_failing_shape (m : bool) (s b : uri) : bool :=
+  if negb (range_eqb (scheme s) (scheme b)) then false
+  else if negb (equals_authority s b) then false
+  else if m then negb (is_host_set s) && negb (absolutePath s)     (* domain-root mode, rootless source *)
+  else if negb (is_host_set s) && negb (Bool.eqb (absolutePath s) (absolutePath b)) then true   (* rooted / rootless *)
+  else
+    let '(s', b') := skip_common (pathSegs s) (pathSegs b) in
+    match s', b' with
+    | [], [] => is_some (query b) && negb (is_some (query s))       (* equal paths, only the base has a query *)
+    | [], _ => true                                                  (* source path a prefix of the base path *)
+    | _, [] => true                                                  (* base path a prefix of the source path *)
+    | _, _ => negb (forallb nodot b')                                (* dot segment in the rest of the base path *)
+    end.
+
+Lemma no_ip_one_kind u : no_ip u = true -> one_kind u = true.
+Proof. unfold no_ip, one_kind. destruct (ip4 u), (ip6 u), (ipFuture u); intros H; try discriminate H; reflexivity. Qed.
+
+Lemma hostless_equal_authority a b : is_host_set a = false -> is_host_set b = false ->
+  is_some (userInfo a) = false -> is_some (portText a) = false ->
+  is_some (userInfo b) = false -> is_some (portText b) = false ->
+  equals_authority a b = true.
+Proof.
+  unfold is_host_set, equals_authority. intros Ha Hb U1 P1 U2 P2.
+  destruct (hostText a), (ip4 a), (ip6 a), (ipFuture a); try discriminate Ha.
+  destruct (hostText b), (ip4 b), (ip6 b), (ipFuture b); try discriminate Hb.
+  destruct (userInfo a); [discriminate U1|]. destruct (portText a); [discriminate P1|].
+  destruct (userInfo b); [discriminate U2|]. destruct (portText b); [discriminate P2|].
+  reflexivity.
+Qed.
+
+Lemma equal_authority_fields_no_ip a b : no_ip a = true -> no_ip b = true -> auth_nonul a = true ->
+  equals_authority a b = true -> auth_fields a = auth_fields b.
+Proof.
+  intros Na Nb Hn He. apply (equals_authority_fields a b Hn) in He. destruct He as (E1 & E2 & E3).
+  unfold host_same in E3. unfold no_ip in Na, Nb. unfold auth_fields.
+  destruct (ip4 a); [discriminate Na|]. destruct (ip6 a); [discriminate Na|]. destruct (ipFuture a); [discriminate Na|].
+  destruct (ip4 b); [discriminate Nb|]. destruct (ip6 b); [discriminate Nb|]. destruct (ipFuture b); [discriminate Nb|].
+  rewrite E1, E2, E3. reflexivity.
+Qed.
+
+Theorem roundtrip_carved m src base : c10_good src = true -> c10_good base = true ->
+  scheme src <> None -> scheme base <> None -> c10_failing_shape m src base = false ->
+  let r := snd (remove_base m src base) in
+  fst (remove_base m src base) = URI_SUCCESS
+  /\ fst (add_base false r base) = URI_SUCCESS
+  /\ same_target (snd (add_base false r base)) src.
+Proof.
+  unfold c10_good. intros Gs Gb Hs Hb Hshape. cbv zeta.
+  split; [exact (remove_base_success m src base Hs Hb)|].
+  apply andb_true_iff in Gs. destruct Gs as [Gs Us]. apply andb_true_iff in Gs. destruct Gs as [Gs Nps].
+  apply andb_true_iff in Gs. destruct Gs as [Gs Ans]. apply andb_true_iff in Gs. destruct Gs as [Ws Is].
+  apply andb_true_iff in Gb. destruct Gb as [Gb Ub]. apply andb_true_iff in Gb. destruct Gb as [Gb Npb].
+  apply andb_true_iff in Gb. destruct Gb as [Gb Anb]. apply andb_true_iff in Gb. destruct Gb as [Wb Ib].
+  pose proof (no_ip_one_kind src Is) as Ks. pose proof (no_ip_one_kind base Ib) as Kb.
+  unfold c10_failing_shape in Hshape.
+  destruct (range_eqb (scheme src) (scheme base)) eqn:He; cbn [negb] in Hshape.
+  2:{ exact (roundtrip_copy_target m src base Hs Hb (or_introl He) Ws Ks). }
+  destruct (equals_authority src base) eqn:Ea; cbn [negb] in Hshape.
+  2:{ destruct (is_host_set src) eqn:Hhs.
+      - exact (roundtrip_other_authority_target m src base Hs Hb He Ea Hhs Ws Ks).
+      - destruct (is_host_set base) eqn:Hhb.
+        + exact (roundtrip_copy_target m src base Hs Hb (or_intror (conj Ea (conj Hhs Hhb))) Ws Ks).
+        + exfalso. cbn [orb] in Us, Ub.
+          apply andb_true_iff in Us. destruct Us as [U1 U2]. apply negb_true_iff in U1. apply negb_true_iff in U2.
+          apply andb_true_iff in Ub. destruct Ub as [U3 U4]. apply negb_true_iff in U3. apply negb_true_iff in U4.
+          rewrite (hostless_equal_authority src base Hhs Hhb U1 U2 U3 U4) in Ea. discriminate Ea. }
+  pose proof (equal_authority_fields_no_ip src base Is Ib Ans Ea) as Eaf.
+  pose proof (host_of_auth_fields _ _ Eaf) as Hhost.
+  destruct m.
+  - (* domain-root mode *)
+    assert (is_host_set src = false -> absolutePath src = true) as Hroot.
+    { intros Hh. rewrite Hh in Hshape. cbn [negb andb] in Hshape. apply negb_false_iff in Hshape. exact Hshape. }
+    split.
+    + exact (proj1 (roundtrip_domain_root_any src base Hs Hb He Ea Hhost Hroot Ws)).
+    + exact (roundtrip_domain_root_any_target src base Hs Hb He Ea Hhost Hroot Ws Kb Eaf).
+  - destruct (negb (is_host_set src) && negb (Bool.eqb (absolutePath src) (absolutePath base))) eqn:Eroot;
+      [discriminate Hshape|].
+    assert (is_host_set src || Bool.eqb (absolutePath src) (absolutePath base) = true) as Hrk.
+    { destruct (is_host_set src); [reflexivity|]. cbn [negb andb orb] in *. apply negb_false_iff in Eroot. exact Eroot. }
+    destruct (skip_common (pathSegs src) (pathSegs base)) as [s' b'] eqn:Hk.
+    destruct s' as [|x s']; destruct b' as [|y b']; try discriminate Hshape.
+    + (* equal paths *)
+      assert (absolutePath src = absolutePath base) as Habs.
+      { destruct (is_host_set src) eqn:Hhs.
+        - rewrite (wf_host_abs src Ws Hhs). symmetry in Hhost. rewrite (wf_host_abs base Wb Hhost). reflexivity.
+        - cbn [orb] in Hrk. apply eqb_prop in Hrk. exact Hrk. }
+      destruct (roundtrip_same_path src base Hs Hb He Ea Hhost Habs Hk Hshape Nps Ws)
+        as (A0 & B1 & B2 & B3 & B4 & B5 & B6).
+      split; [exact A0|].
+      unfold same_target. apply components_fields.
+      * rewrite !canon10_nf. exact B1.
+      * rewrite !canon10_nf. autorewrite with af_db. rewrite B2, Eaf. apply auth_fields_copy. exact Kb.
+      * exact B3.
+      * rewrite !canon10_nf. exact B4.
+      * rewrite !canon10_nf. exact B5.
+      * rewrite !canon10_nf. exact B6.
+    + (* the walk *)
+      apply negb_false_iff in Hshape.
+      assert (walk_ok_dotted src base = true) as Hwalk.
+      { unfold walk_ok_dotted. rewrite Hk. cbn [fst snd nonnil].
+        rewrite He, Ea, Hhost, eqb_reflx, Hshape, Nps, Ws, Wb. rewrite <- Hhost, Hrk.
+        destruct (scheme src); [|congruence]. destruct (scheme base); [|congruence]. reflexivity. }
+      split.
+      * exact (proj1 (proj2 (roundtrip_walk_dotted src base Hwalk))).
+      * exact (roundtrip_walk_dotted_target src base Hwalk Kb Eaf).
+Qed.
+
 (* ---------------------------------------------------------------- 7. the unrestricted round trip is false *)
 (* S and B parse, are absolute, well formed and free of dot segments; creating the reference and resolving
    it both succeed; the result is not S, even after dot-segment normalization and with "" = "/" under an
@@ -1135,4 +1305,18 @@ Lemma witness_classes :
   /\ c10_class false (uri_of "s://h/a") (uri_of "s://h/a?q") = 5
   /\ c10_class false (uri_of "s:/a") (uri_of "s:b") = 4
   /\ c10_class true (uri_of "s:a") (uri_of "s:b") = 3.
+Proof. vm_compute. repeat split. Qed.
+
+(* every clause of c10_failing_shape holds a real failure; the witnesses are objects of the kind the
+   carved theorem is about *)
+Definition in_failing_shape (m : bool) (S B : string) : bool :=
+  c10_good (uri_of S) && c10_good (uri_of B) && c10_failing_shape m (uri_of S) (uri_of B).
+
+Lemma failing_shape_witnesses :
+  in_failing_shape false "s://h/a/b" "s://h/a" = true
+  /\ in_failing_shape false "s://h/a" "s://h/a/b/c" = true
+  /\ in_failing_shape false "s://h/a" "s://h/a?q" = true
+  /\ in_failing_shape false "s:/a" "s:b" = true
+  /\ in_failing_shape true "s:a" "s:b" = true
+  /\ in_failing_shape false "s://h/a/b" "s://h/a/./x" = true.
 Proof. vm_compute. repeat split. Qed.
